@@ -10,11 +10,40 @@ import time
 
 ROOT = os.path.dirname(os.path.dirname(os.path.abspath(__file__)))
 SPECS = os.path.join(ROOT, "specs")
-HARNESS = os.path.join(ROOT, "harness")
-WORK = os.path.join(ROOT, "work")
-EVIDENCE = os.path.join(ROOT, "evidence")
-REPLAYS = os.path.join(ROOT, "replays")
+HARNESS_SRC = os.path.join(ROOT, "harness")
+# Development aid (tools/try_seed.sh): the tree under test and the output
+# directories can be redirected, so that a scratch worktree carrying a seeded
+# change is checked without touching /repo, the committed evidence or the work
+# directories of a concurrent regular run.  Registered commands never set these.
+REPO = os.environ.get("VERIF_REPO", "/repo")
+WORK = os.environ.get("VERIF_WORK", os.path.join(ROOT, "work"))
+EVIDENCE = os.environ.get("VERIF_EVIDENCE", os.path.join(ROOT, "evidence"))
+REPLAYS = os.environ.get("VERIF_REPLAYS", os.path.join(ROOT, "replays"))
 KNOWN = os.path.join(ROOT, "known_findings.json")
+
+
+def _harness_dir():
+    """The harness crate: /verif/harness for /repo; for another tree a derived copy
+    (same sources, path dependencies rewritten) under WORK."""
+    if REPO == "/repo":
+        return HARNESS_SRC
+    d = os.path.join(WORK, "scratch_harness")
+    if not os.path.exists(os.path.join(d, "Cargo.toml")):
+        os.makedirs(os.path.join(d, ".cargo"), exist_ok=True)
+        toml = open(os.path.join(HARNESS_SRC, "Cargo.toml")).read().replace("/repo/crates", REPO + "/crates")
+        open(os.path.join(d, "Cargo.toml"), "w").write(toml)
+        shutil.copy(os.path.join(HARNESS_SRC, ".cargo", "config.toml"), os.path.join(d, ".cargo", "config.toml"))
+        shutil.copy(os.path.join(REPO, "Cargo.lock"), os.path.join(d, "Cargo.lock"))
+        if not os.path.exists(os.path.join(d, "src")):
+            os.symlink(os.path.join(HARNESS_SRC, "src"), os.path.join(d, "src"))
+        tgt = os.path.join(HARNESS_SRC, "target")
+        if os.path.isdir(tgt) and not os.path.exists(os.path.join(d, "target")):
+            # hard links: third-party artifacts are reused, the path crates rebuild
+            subprocess.run(["cp", "-al", tgt, os.path.join(d, "target")], check=False)
+    return d
+
+
+HARNESS = _harness_dir()
 
 
 class ToolError(Exception):
@@ -85,7 +114,7 @@ def build(features=None, release=False):
         return bindir(release)
     lock = os.path.join(HARNESS, "Cargo.lock")
     if not os.path.exists(lock):
-        shutil.copy("/repo/Cargo.lock", lock)
+        shutil.copy(os.path.join(REPO, "Cargo.lock"), lock)
     cmd = ["cargo", "build", "--offline", "--bins"]
     if release:
         cmd.append("--release")
@@ -94,7 +123,7 @@ def build(features=None, release=False):
     t0 = time.time()
     p = run(cmd, cwd=HARNESS, timeout=3600, check=False)
     if p.returncode != 0 and "yanked" in (p.stdout or ""):
-        shutil.copy("/repo/Cargo.lock", lock)
+        shutil.copy(os.path.join(REPO, "Cargo.lock"), lock)
         p = run(cmd, cwd=HARNESS, timeout=3600, check=False)
     if p.returncode != 0:
         raise ToolError("harness build failed:\n" + (p.stdout or "")[-6000:])
